@@ -385,6 +385,7 @@ META = {
             "alphabet of ~45 calls (all serializers, 15 SPARQL queries incl. GRAPH/FROM/FROM NAMED/DESCRIBE, paths, isomorphism and canonicalisation, "
             "graph_diff, iteration, slicing, quads, graphs, membership with the graph as identifier / view / foreign Graph) is executed; a snapshot of the "
             "store taken through independent views must be identical afterwards and a repeated read must give the same answer.",
-    "note": "Small scope: 2-4 universe triples x 3 graph names; pairs of reads (length-2 sequences); queries without RAND/NOW/UUID/BNODE().",
+    "note": "Small scope: 2-4 universe triples x 3 graph names; pairs of reads (length-2 sequences); queries without RAND/NOW/UUID/BNODE(); path objects and seven prepared query objects are shared by both reads of a pair; SELECT answers keep their order; "
+            "writes with a base some IRIs merely start with; three terms that make writers hesitate about prefixes.",
     "technique": "exhaustive enumeration of read-call pairs over a state family with a store-snapshot invariant",
 }
